@@ -73,3 +73,28 @@ func init() {
 		return out, nil
 	})
 }
+
+// cuthist name site rcsite skip oh seq: the SAME stored string through a fixed history of calls
+// (circular, directional) in one process; reply = one (direct, "-") pair per call.
+var c10History = [][2]bool{{true, true}, {false, true}, {true, true}, {false, false}, {false, true}, {true, false}, {true, true}}
+
+func init() {
+	runner.Register("cuthist", func(a []string) ([]string, error) {
+		name, site, rcsite := a[0], a[1], a[2]
+		skip, _ := strconv.Atoi(a[3])
+		oh, _ := strconv.Atoi(a[4])
+		enzyme := clone.Enzyme{
+			Name:            name,
+			RegexpFor:       regexp.MustCompile(regexp.QuoteMeta(site)),
+			RegexpRev:       regexp.MustCompile(regexp.QuoteMeta(rcsite)),
+			Skip:            skip,
+			OverhangLen:     oh,
+			RecognitionSite: site,
+		}
+		var out []string
+		for _, h := range c10History {
+			out = append(out, c10Direct(clone.Part{Sequence: a[5], Circular: h[0]}, h[1], enzyme), "-")
+		}
+		return out, nil
+	})
+}
